@@ -218,7 +218,7 @@ class CallListerVisitor(ast.NodeVisitor):
             self.process_Call(node)
 
     def process_parameters(self, args, main=False):
-        for arg in args.args:
+        for arg in getattr(args, 'posonlyargs', []) + args.args:
             name = get_param(arg)
             self.namespace[name] = Arg(name) if main else Unknown(arg)
         if sys.version_info > (3,):
@@ -257,6 +257,9 @@ class CallListerVisitor(ast.NodeVisitor):
                 self.visit(name)
 
     def visit_FunctionDef(self, node):
+        name = getattr(node, 'name', None) # lambdas have none
+        if name is not None:
+            self.namespace[name] = Unknown(node)
         self.namespace = Namespace(self.namespace)
         self.process_parameters(node.args)
         body = node.body
@@ -268,7 +271,32 @@ class CallListerVisitor(ast.NodeVisitor):
             self.visit(stmt)
         self.namespace = self.namespace.parent
 
-    visit_Lambda = visit_FunctionDef
+    visit_Lambda = visit_AsyncFunctionDef = visit_FunctionDef
+
+    def visit_ClassDef(self, node):
+        self.namespace[node.name] = Unknown(node)
+        self.generic_visit(node)
+
+    def visit_ExceptHandler(self, node):
+        if node.name:
+            self.namespace[node.name] = Unknown(node)
+        self.generic_visit(node)
+
+    def visit_alias(self, node):
+        name = node.asname or node.name.partition('.')[0]
+        self.namespace[name] = Unknown(node)
+
+    def visit_MatchAs(self, node):
+        if node.name:
+            self.namespace[node.name] = Unknown(node)
+        self.generic_visit(node)
+
+    visit_MatchStar = visit_MatchAs
+
+    def visit_MatchMapping(self, node):
+        if node.rest:
+            self.namespace[node.rest] = Unknown(node)
+        self.generic_visit(node)
 
     def visit_Nonlocal(self, node):
         for name in node.names:
